@@ -3,6 +3,8 @@ import numpy as np
 
 from vmon import gen, instr
 
+from vmon.scale import S
+
 ID = 'C10'
 RULE = ('cases = calls of get_power_spectral_density_matrix on complex observations with 0..3 leading axes, D 1..8, T 1..64, K 1..5, '
         'float / boolean / all-zero / absent masks with or without source axis, every valid sensor_dim / source_dim placement, '
@@ -17,7 +19,7 @@ ASSUMPTIONS = ['the reference is an explicit loop over leading indices, sources 
 
 def plan(tier, seed):
     rng = np.random.default_rng([seed, 110])
-    n = 500 if tier == 'quick' else 6000
+    n = S(tier, 500, 6000)
     pick = lambda xs: xs[int(rng.integers(len(xs)))]
     cases = []
     for i in range(n):
